@@ -55,7 +55,7 @@ MANIFEST = {
     "text": "Static decision of the frame-discipline clause of C03: under the declared frame types the observers reaching every field function are "
             "provably `inverse source rotation applied to (global point - source position)` and the value returned to level 2 is the forward rotation "
             "of the result, for every source class at once (all go through getBH_level1); get_src_dict provably passes each source's own pose paths. "
-            "Index alignment of tiled rows and the covariance of the closed forms themselves are not decided. Round 3: axis-layout typing (F2c) decides the row alignment of positions, orientations, observers and per-source parameters through get_src_dict, getBH_level1 and getBH_level2.",
+            "Index alignment of tiled rows and the covariance of the closed forms themselves are not decided. Round 3: axis-layout typing (F2c) decides the row alignment of positions, orientations, observers and per-source parameters through get_src_dict, getBH_level1 and getBH_level2. Rounds 4-5: a pose is copied by assignment, never by move/rotate with a path argument (F2d).",
     "design_ref": "DESIGN.md §3 C03",
     "note": "Trusted: the FRAME abstract interpreter (tolerant mode, every rotation site must be judged), 10 lines of type declarations, SciPy Rotation algebra.",
     "technique": "static analysis: abstract interpretation with a coordinate-frame type lattice",
